@@ -222,14 +222,14 @@ func (fv *FV) execBlock(st *State, b *ssa.BasicBlock, pred *ssa.BasicBlock) {
 			for k := range fv.heapsUsed {
 				keys = append(keys, k)
 			}
-			fv.havocLoopHeaps(st, keys)
+			fv.havocLoopHeaps(st, keys, li.blocks)
 			fv.havocGhostInFrame(st)
 		} else {
 			keys := make([]string, 0, len(mods))
 			for k := range mods {
 				keys = append(keys, k)
 			}
-			fv.havocLoopHeaps(st, keys)
+			fv.havocLoopHeaps(st, keys, li.blocks)
 		}
 		na := fv.fresh("alloc", "Int")
 		st.assume(fmt.Sprintf("(>= %s %s)", na, st.alloc))
